@@ -968,22 +968,50 @@ theorem threadBody_spec (t : Option TlsO) (body : Bool) : Spec (optTls t) (threa
   rcases t with _ | ⟨a, _ | sl⟩ <;> cases body <;>
     simp [threadBody, getTlsKey, TlsO.foot, Slot.foot, optTls, slotFoot, List.erase_cons] at h ⊢ <;> grind
 
-theorem threadRun_spec (l : LibO) (tls : Option TlsO) (body : Bool) :
-    Spec (l.foot ++ optTls tls) (threadRun l tls body)
+/-- the attribute calls and `pthread_create` change neither what is held nor the names nor the allocation index -/
+theorem threadStart_wp {Q : Bool → St → Prop}
+    (hq : ∀ b s', s'.held = s.held → s'.names = s.names → s'.next = s.next → Q b s') : wp threadStart f s Q := by
+  simp only [threadStart]
+  wps
+  split
+  · simp only [Bool.not_false, if_true]
+    wps
+    exact hq _ _ rfl rfl rfl
+  · simp only [Bool.not_true, Bool.false_eq_true, if_false]
+    wps
+    split
+    · simp only [Bool.not_false, if_true]
+      wps
+      exact hq _ _ rfl rfl rfl
+    · simp only [Bool.not_true, Bool.false_eq_true, if_false]
+      wps
+      split <;> exact hq _ _ rfl rfl rfl
+
+theorem threadSetName_spec (long : Bool) (nm : Option Blk) : Spec [] (threadSetName long nm) (fun _ => []) := by
+  intro f s fr h
+  cases long <;> cases nm <;> simp [threadSetName] at h ⊢ <;> grind
+
+theorem threadRun_spec (l : LibO) (tls : Option TlsO) (o : ThrOpt) :
+    Spec (l.foot ++ optTls tls) (threadRun l tls o)
       (fun r => optL ThreadO.foot r.1 ++ r.2.1.foot ++ optTls r.2.2) := by
   intro f s fr h
   have h0 : s.held ~ optTls l.tls ++ (optTls tls ++ (ob l.spin ++ fr)) := by
     simp [LibO.foot] at h ⊢; permg h
-  -- the name, then the thread
+  -- the name, then the thread: its proxy, the system name, its body
   have run : ∀ (nm : Option Blk) (s1 : St), s1.names = s.names →
       s1.held ~ optTls l.tls ++ (optTls tls ++ (.blk (s.next + 1) :: (ob nm ++ (ob l.spin ++ fr)))) →
-      wp (threadProxy l.tls) f s1 (fun lt s' => wp (threadBody tls body) f s' (fun tls' s'' =>
-        s''.held ~ optL ThreadO.foot (some (⟨s.next + 1, nm⟩ : ThreadO)) ++ ({ l with tls := lt } : LibO).foot ++ optTls tls' ++ fr ∧
-          s''.names = s.names)) := by
+      wp (threadProxy l.tls) f s1 (fun lt s2 => wp (threadSetName o.long nm) f s2 (fun _ s3 =>
+        wp (threadBody tls o.body) f s3 (fun tls' s4 =>
+        s4.held ~ optL ThreadO.foot (some (⟨s.next + 1, nm⟩ : ThreadO)) ++ ({ l with tls := lt } : LibO).foot ++ optTls tls' ++ fr ∧
+          s4.names = s.names))) := by
     intro nm s1 hn1 h1
     apply wp_spec (threadProxy_spec l.tls) h1
     intro lt s2 h2 hn2
-    apply wp_spec (threadBody_spec tls body) (fr := optTls lt ++ (.blk (s.next + 1) :: (ob nm ++ (ob l.spin ++ fr)))) (by permg h2)
+    apply wp_spec (threadSetName_spec o.long nm) (fr := s2.held) (by simp)
+    intro _ s2' h2' hn2'
+    simp only [List.nil_append] at h2'
+    apply wp_spec (threadBody_spec tls o.body) (fr := optTls lt ++ (.blk (s.next + 1) :: (ob nm ++ (ob l.spin ++ fr))))
+      (by have := h2'.trans h2; permg this)
     intro tls' s3 h3 hn3
     simp [ThreadO.foot, LibO.foot] at h3 ⊢
     exact ⟨by permg h3, by simp_all⟩
@@ -991,16 +1019,19 @@ theorem threadRun_spec (l : LibO) (tls : Option TlsO) (body : Bool) :
   wps
   split
   · simpa using h
-  · split
+  · apply threadStart_wp
+    intro ok s1 hh hn hx
+    cases ok
     · simp only [Bool.not_false, if_true]
       wps
-      simp at h ⊢
+      simp [hh, hn] at h ⊢
       exact h
     · simp only [Bool.not_true, Bool.false_eq_true, if_false]
       wps
+      rw [hx]
       split
-      · exact run none _ rfl (by simp; permg h0)
-      · exact run (some (s.next + 1 + 1)) _ rfl (by simp; permg h0)
+      · exact run none _ (by simpa using hn) (by simp [hh]; permg h0)
+      · exact run (some (s.next + 1 + 1)) _ (by simpa using hn) (by simp [hh]; permg h0)
 
 /-! ## library loader, anonymous mappings -/
 theorem loaderNew_spec (w : Nat) : Spec [] (loaderNew w) (optL LoaderO.foot) := by
@@ -1022,5 +1053,16 @@ theorem mmapNew_spec (len : Nat) (e : EP) :
   intro f s fr h
   rcases e with _ | _ | x <;>
     simp [mmapNew, setErr, errNewLiteral, EP.foot, ErrO.foot, ob] at h ⊢ <;> grind
+
+theorem strRealloc_spec (b : Blk) : Spec [.blk b] (strRealloc b) (fun r => [.blk r.2]) := by
+  intro f s fr h
+  simp [strRealloc] at h ⊢
+  grind
+
+theorem mmapUnmap_spec (i len : Nat) (e : EP) :
+    Spec (.map i len :: e.foot) (mmapUnmap i len e) (fun r => (if r.1 then [] else [.map i len]) ++ r.2.foot) := by
+  intro f s fr h
+  rcases e with _ | _ | x <;>
+    simp [mmapUnmap, setErr, errNewLiteral, EP.foot, ErrO.foot, ob] at h ⊢ <;> grind
 
 end PV.Res
